@@ -266,7 +266,7 @@ def _execute(sc, sim, out):
         else:
             m = canon_meta(meta)
             exp_f = [(f['name'], float(t_), float(f['center'])) for f, t_ in zip(W.fspec, sc['theta'])]
-            ok = m[0] == d and len(m[1]) == len(exp_f) and all(a[0] == b[0] and abs(a[1] - b[1]) <= 1e-9 * b[1] and abs(a[2] - b[2]) <= 1e-9 * b[2] for a, b in zip(m[1], exp_f))
+            ok = os.path.realpath(m[0]) == os.path.realpath(d) and len(m[1]) == len(exp_f) and all(a[0] == b[0] and abs(a[1] - b[1]) <= 1e-9 * b[1] and abs(a[2] - b[2]) <= 1e-9 * b[2] for a, b in zip(m[1], exp_f))
             if not ok:
                 out.violate('metadata-wrong', 'model_dir/filters in metadata are not those of the run: %r' % (m[:2],))
     if out.violations:
